@@ -335,6 +335,20 @@ structure PluginProg where
 def PluginProg.response (p : PluginProg) : Response :=
   { adjust := p.adjust.map runA, updates := p.updates.map runU }
 
+/-- the items plugin programs `pp` set on container `c` in a request of kind `k`, read off the
+    programs (`strict`: updates that call `SetIgnoreFailure` are left out, as in `Ledger.setsOn`) -/
+def progSetsOn (strict : Bool) (k : Kind) (pp : PluginProg) (c : Cid) : List Item :=
+  (match k, pp.adjust with
+   | .create id, some prog => if id = c then progSets prog else []
+   | _, _ => []) ++
+  (pp.updates.filter fun u => progTarget u = c && !(strict && progIgnore u)).flatMap progSetsU
+
+/-- the items plugin programs `pp` release on container `c` -/
+def progRemovesOn (k : Kind) (pp : PluginProg) (c : Cid) : List Item :=
+  match k, pp.adjust with
+  | .create id, some prog => if id = c then progClears prog else []
+  | _, _ => []
+
 /-- "every Add of a removable kind is preceded by the matching Remove": each item the program
     sets among annotations, mounts, environment, devices and the command line is also released
     by it (`RemoveX(k)` somewhere in the program — before or after, the collector does not care —
